@@ -208,29 +208,6 @@ impl Expression {
         Self::Variable(name.into(), ExpressionType::UserDefined(type_name.into()))
     }
 
-    fn flip_multiply_plus(l_op: &Operator, r_op: &Operator) -> bool {
-        (l_op.is_multiply_or_divide() || *l_op == Operator::Modulo) && r_op.is_plus_or_minus()
-    }
-
-    fn flip_plus_minus(l_op: &Operator, r_op: &Operator) -> bool {
-        //
-        //  A + B - C is parsed as
-        //
-        //      +
-        //   A     -
-        //        B C
-        //
-        // needs to flip into
-        //
-        //      -
-        //   +    C
-        //  A B
-        l_op.is_plus_or_minus() && r_op.is_plus_or_minus()
-    }
-
-    fn flip_multiply_divide(l_op: &Operator, r_op: &Operator) -> bool {
-        l_op.is_multiply_or_divide() && r_op.is_multiply_or_divide()
-    }
 }
 
 // TODO #[deprecated]
@@ -299,8 +276,10 @@ impl ExpressionPosTrait for ExpressionPos {
             let Self { element, pos } = self;
             match element {
                 Expression::BinaryExpression(r_op, r_left, r_right, _) => {
-                    // apply the unary operator to the left of the binary expr
-                    let new_left = Expression::UnaryExpression(op, r_left).at_pos(op_pos);
+                    // apply the unary operator to the left-most operand of the binary expr
+                    // (the left side can be a binary expr itself, e.g. `-A - B - C`
+                    // reaches this point as `-((A - B) - C)`)
+                    let new_left = (*r_left).apply_unary_priority_order(op, op_pos);
                     // and nest it as left inside a binary expr
                     new_left.binary_expr(r_op, *r_right, pos)
                 }
@@ -376,14 +355,10 @@ impl ExpressionTrait for Expression {
     fn should_flip_binary(&self) -> bool {
         match self {
             Self::BinaryExpression(l_op, _, l_right, _) => match &l_right.element {
-                Self::BinaryExpression(r_op, _, _, _) => {
-                    l_op.is_arithmetic() && (r_op.is_relational() || r_op.is_binary())
-                        || l_op.is_relational() && r_op.is_binary()
-                        || *l_op == Operator::And && *r_op == Operator::Or
-                        || Self::flip_multiply_plus(l_op, r_op)
-                        || Self::flip_plus_minus(l_op, r_op)
-                        || Self::flip_multiply_divide(l_op, r_op)
-                }
+                // `A op1 B op2 C` is parsed as `A op1 (B op2 C)`. It needs to flip
+                // into `(A op1 B) op2 C` unless op2 binds tighter than op1
+                // (operators of equal priority group from left to right).
+                Self::BinaryExpression(r_op, _, _, _) => l_op.priority() >= r_op.priority(),
                 _ => false,
             },
             _ => false,
